@@ -307,6 +307,14 @@ func (e *esdtNFTMultiTransfer) transferOneTokenOnSenderShard(
 		return nil, err
 	}
 
+	storedNonce := uint64(0)
+	if esdtData.TokenMetaData != nil {
+		storedNonce = esdtData.TokenMetaData.Nonce
+	}
+	if storedNonce != nonce {
+		return nil, ErrNFTDoesNotHaveMetadata
+	}
+
 	if esdtData.Value.Cmp(quantityToTransfer) < 0 {
 		return nil, ErrInvalidNFTQuantity
 	}
